@@ -292,16 +292,18 @@ C18Step ==
         /\ ~IsOk(ParseResponse(Res)) /\ ~IsOk(ParseEvent(Res))
   /\ (Op = "response" /\ OkStep) =>
         LET x == ParseResponse(Res) IN
-        /\ IsOk(x) /\ Val(x)[2] = Arg(1) /\ Val(x)[4] = Dg(Arg(3))
+        /\ IsOk(x) /\ Val(x)[2] = Arg(1) /\ Val(x)[4] = Dg(IF Arg(3)[1] = "reg" THEN reg[Arg(3)[2]] ELSE Arg(3))
         /\ Arg(1) # "early" => Val(x)[3] = Arg(2)
         /\ ~IsOk(ParseRequest(Res, NoFn))
   /\ (Op = "event" /\ OkStep) =>
         LET x == ParseEvent(Res) IN
         IsOk(x) /\ Val(x)[2] = Dg(reg[Arg(1)]) /\ Val(x)[3] = Arg(2) /\ Val(x)[4] = Arg(3) /\ Val(x)[5] = Arg(4)
   (* both or neither of result / error, a wrongly tagged subject: rejected *)
-  /\ (Op = "malform" /\ OkStep /\ Arg(2) \in {"add_error", "add_result", "drop_result", "drop_error", "retag_subject", "subject_other_kv"}) =>
-        ~IsOk(ParseResponse(Res))
-  /\ (Op = "malform" /\ OkStep /\ Arg(2) \in {"drop_body", "second_body", "retag_subject"}) => ~IsOk(ParseRequest(Res, NoFn))
+  (* ... of something that was a well-formed response / request *)
+  /\ (Op = "malform" /\ OkStep /\ Arg(2) \in {"add_error", "add_result", "drop_result", "drop_error", "retag_subject", "subject_other_kv"}
+        /\ IsOk(ParseResponse(Src))) => ~IsOk(ParseResponse(Res))
+  /\ (Op = "malform" /\ OkStep /\ Arg(2) \in {"drop_body", "second_body", "retag_subject"} /\ IsOk(ParseRequest(Src, NoFn))) =>
+        ~IsOk(ParseRequest(Res, NoFn))
 C18Prop == [][C18Step]_vars
 
 (* ---- C19 ---------------------------------------------------------------*)
